@@ -192,3 +192,58 @@ Theorem c07_utf16_parse_lone_surrogate_kept : forall dl pre ds post v, backslash
   utf16_parse dl (pre ++ (92 :: 117 :: ds) ++ post) = Some (pre ++ (92 :: 117 :: ds) ++ post).
 Proof. exact utf16_parse_lone_surrogate. Qed.
 Print Assumptions c07_utf16_parse_lone_surrogate_kept.
+
+(* ------------------------------------------------------------------------------------------------------------------ *)
+(* the code itself (go2v translation, regenerated on every run) *)
+From V Require Import Lib.GoSem Gen.CodecCode Proofs.CodecCodeBase Proofs.CodecCodeFormat Proofs.CodecCodeParseBase Proofs.CodecCodeParse
+  Proofs.CodecCodeU16 Proofs.CodecCode Run.C07Code.
+(* Gen/CodecCode.v is the translation of the CURRENT bodies of lower, upper, parseUint (strz/std_strconv.go) and appendUint,
+   toUpper, OctalFormat, OctalParse, HexFormat, HexParse, UnicodeFormat, UnicodeParse, Utf16Format, Utf16Parse (strz/enc.go)
+   — gen/trans.go + gen/trans_ext07.go, see gen/TRANSLATOR.md.  Each generated function equals the hand-written model
+   function on which the theorems above rest (lift: None = panic; a []byte parameter that the Go function writes in place
+   is returned in front of the results; strconv.AppendUint, unicode/utf8 and unicode/utf16 are the models of
+   Lib/GoSemStd.v, i.e. Lib/Utf8.v, as in the hand model):
+   - lower: every integer; upper: every byte (the code shifts in 8 bits, the model in Z);
+   - parseUint(s, base, bitSize): every digit string, every base in 2..255, every bit size 0..64, every fuel above len(s):
+     the value / resume index / ok triple of the model's pu with its uint64 wrap-around (pu_res: the index as an int);
+   - appendUint(dst, v, base): every dst of at most len(zeroPadding) = 8 bytes (the model's own domain), every v, every
+     base 2..36 (strconv panics outside; the model has no such check): the new dst, or a panic when the digits do not fit;
+   - toUpper(dst): every byte string and every fuel above its length: the new dst;
+   - the four Format functions: every byte string, every fuel above its length (and above 2 / 8 / 4 for Hex / Unicode /
+     Utf16: toUpper runs over the digits with the caller's fuel);
+   - XParse(dst, src) for the four codecs: every dst, every src (any integers), every fuel above len(src): the model's
+     answer out = dst[:n] (or its panic), as the pair (out followed by the rest of dst, n) — parse_res; dst and src do not
+     overlap (the model never reads dst; the translator assumes it for distinct slice arguments). *)
+Theorem c07_code_is_model :
+  (forall c, g_lower c = Ret (lower c)) /\
+  (forall c, 0 <= c < 256 -> g_upper c = Ret (upper c)) /\
+  (forall fuel s base bits, 2 <= base < 256 -> 0 <= bits <= 64 -> (length s < fuel)%nat ->
+     g_parseUint fuel s base bits = Ret (pu_res (parse_uint s base bits))) /\
+  (forall dst v base, (length dst <= 8)%nat -> 2 <= base <= 36 -> g_appendUint dst v base = lift (append_uint (length dst) v base)) /\
+  (forall fuel dst, bytes dst -> (length dst < fuel)%nat -> g_toUpper fuel dst = Ret (to_upper dst)) /\
+  (forall fuel s, bytes s -> (length s < fuel)%nat -> g_OctalFormat fuel s = lift (octal_format s)) /\
+  (forall fuel s, bytes s -> (length s < fuel)%nat -> (2 < fuel)%nat -> g_HexFormat fuel s = lift (hex_format s)) /\
+  (forall fuel s, bytes s -> (length s < fuel)%nat -> (8 < fuel)%nat -> g_UnicodeFormat fuel s = lift (unicode_format s)) /\
+  (forall fuel s, bytes s -> (length s < fuel)%nat -> (4 < fuel)%nat -> g_Utf16Format fuel s = lift (utf16_format s)) /\
+  (forall fuel dst src, (length src < fuel)%nat ->
+     g_OctalParse fuel dst src = mmap (parse_res dst) (lift (octal_parse (length dst) src))) /\
+  (forall fuel dst src, (length src < fuel)%nat ->
+     g_HexParse fuel dst src = mmap (parse_res dst) (lift (hex_parse (length dst) src))) /\
+  (forall fuel dst src, (length src < fuel)%nat ->
+     g_UnicodeParse fuel dst src = mmap (parse_res dst) (lift (unicode_parse (length dst) src))) /\
+  (forall fuel dst src, (length src < fuel)%nat ->
+     g_Utf16Parse fuel dst src = mmap (parse_res dst) (lift (utf16_parse (length dst) src))).
+Proof.
+  exact (conj code_lower (conj code_upper (conj code_parseUint (conj code_appendUint (conj code_toUpper
+          (conj code_OctalFormat (conj code_HexFormat (conj code_UnicodeFormat (conj code_Utf16Format
+          (conj code_OctalParse (conj code_HexParse (conj code_UnicodeParse code_Utf16Parse)))))))))))).
+Qed.
+Print Assumptions c07_code_is_model.
+
+(* the case interpreter of the correspondence run with all twelve operations (the four Format functions, the four Parse
+   functions with any destination length, Parse(Format(s))) executed through the generated functions (Run/C07Code.v) gives
+   the output of `entry` on every case: the differential run of entry 0 against the compiled package is a run of the
+   generated code *)
+Theorem c07_entry_runs_generated_code : forall sub args, entry_code sub args = entry sub args.
+Proof. exact entry_code_is_entry. Qed.
+Print Assumptions c07_entry_runs_generated_code.
